@@ -816,6 +816,21 @@ def directed_programs():
         for tn, t in tsts[:3]:
             th, el = then_else(22)
             mk('G_call%s_%s' % (on, tn), [('if', t(e), th, el)], cntf)
+    # H. an assignment, then a statement that sets N and Z from something else without loading anything new into
+    #    the accumulator's source, then a zero test of the assigned object (8-bit variable or register)
+    mids = [('s>>=1', ('expr', ('asg', '>>=', V('s'), N(1)))), ('s<<=1', ('expr', ('asg', '<<=', V('s'), N(1)))),
+            ('t>>=1', ('expr', ('asg', '>>=', V('t'), N(1)))), ('s>>=3', ('expr', ('asg', '>>=', V('s'), N(3)))),
+            ('s++', ('expr', ('inc', 'x++', V('s')))), ('t--', ('expr', ('inc', 'x--', V('t')))), ('s=t', asg(V('s'), V('t'))),
+            ('el++', ('expr', ('inc', 'x++', ('idx', 'arr', N(2))))), ('d++', ('expr', ('inc', 'x++', V('d')))),
+            ('d>>=1', ('expr', ('asg', '>>=', V('d'), N(1)))), ('s+=300', ('expr', ('asg', '+=', V('s'), N(300)))),
+            ('Y=Y', asg(V('Y'), V('Y'))), ('X=X', asg(V('X'), V('X')))]
+    for mn, mid in mids:
+        for dn, dst in (('a', V('a')), ('X', V('X')), ('Y', V('Y'))):
+            if mn in ('Y=Y', 'X=X') and dn != 'a':
+                continue
+            for tn, t in tsts[:3]:
+                th, el = then_else(24)
+                mk('H_%s_%s_%s' % (mn, dn, tn), [asg(dst, V('b')), mid, ('if', t(dst), th, el)])
     # F. ++/-- of a 16-bit variable as an operand
     for iname in ('++x', '--x', 'x++', 'x--'):
         inc = ('inc', iname, V('s'))
